@@ -66,6 +66,8 @@ def spec_runs(ctx):
 
 def run(ctx):
     from coba.experiments import Experiment
+    from coba.context import CobaContext, NullLogger
+    from coba.pipes import ListSink
     rng = random.Random(ctx.seed)
     spec_runs(ctx)
     d = os.path.join(ctx.scratch, "runs"); os.makedirs(d, exist_ok=True)
@@ -101,8 +103,9 @@ def run(ctx):
                     triples = [full[i] for i in order]
                     shared = {id(l): l for _, l, _ in triples if sum(1 for _, l2, _ in triples if l2 is l) > 1}
                     before = {k: pickle.dumps(l) for k, l in shared.items()}
+                    logsink = ListSink()
                     def go():
-                        explib.quiet_ctx()
+                        explib.quiet_ctx(); CobaContext.logger = NullLogger(logsink)      # quiet=True: only exceptions are written, to this sink
                         return Experiment(triples).run(f, quiet=True, processes=cfg["p"], maxchunksperchild=cfg["mc"], maxtasksperchunk=cfg["mt"], seed=shape.get("seed", 1))
                     if cfg["p"] == 1 and cfg["mc"] == 0: out = {"value": go(), "verdict": "ok"}
                     else: out, _ = vmp.run_scheduled(go, vsched.random_policy(random.Random(sseed)))
@@ -110,6 +113,7 @@ def run(ctx):
                     if out["verdict"] != "ok" or "error" in out:
                         ctx.violation("run-failed", "Experiment.run did not complete: %s %r" % (out["verdict"], out.get("error")), case); continue
                     got = rows_by_triple(out["value"])
+                    reports = [str(x) for x in logsink.items if "fails" in str(x)]       # every injected failure says "fails"
                     bad = None
                     for t in shape["tr"]:
                         t = tuple(t)
@@ -132,14 +136,16 @@ def run(ctx):
                     evals = []
                     for ln in open(side).read().splitlines():
                         e, l, v = json.loads(ln); evals.append(["I", emap[e], lmap[l], vmap[v]])
-                    run = dict(cfg=dict(p=min(cfg["p"], 3), mt=cfg["mt"], ip=(cfg["p"] == 1 and cfg["mc"] == 0)), recs=keys, evals=evals, end="done", torn=0, tornk=["none"])
+                    run = dict(cfg=dict(p=min(cfg["p"], 3), mt=cfg["mt"], ip=(cfg["p"] == 1 and cfg["mc"] == 0)), recs=keys, evals=evals, end="done", torn=0, tornk=["none"], nrep=len(reports))
                     traces.append(dict(shape=dict(tr=ctr, ch=cch, fail=cfail), runs=[run])); meta.append(case)
     if traces: ctx.sample(traces[-1], limit=2)
     rej = tracecheck.validate(ctx, "ExperimentLogTrace", "ExperimentLogTrace.cfg", traces, name="c03_trace", workers=16)
     rejected = set()
     for i, reason, pos in rej:
         rejected.add(i)
-        ctx.violation("trace-rejected", "%s (position code %s); isolation: %s; history=%s" % (reason, pos, meta[i]["isolation"], json.dumps(traces[i]["runs"])[:500]), dict(meta[i], trace=traces[i]))
+        run0 = traces[i]["runs"][0]; nfail = sum(1 for e in run0["evals"] if e[1:] in traces[i]["shape"]["fail"])
+        hint = "" if run0["nrep"] == nfail else " [the log received %d exception reports for %d failing evaluations]" % (run0["nrep"], nfail)
+        ctx.violation("trace-rejected" if not hint else "failure-not-reported", "%s (position code %s)%s; isolation: %s; history=%s" % (reason, pos, hint, meta[i]["isolation"], json.dumps(traces[i]["runs"])[:500]), dict(meta[i], trace=traces[i]))
     for i, m in enumerate(meta):
         if m["isolation"] and i not in rejected:
             ctx.violation("not-isolated", m["isolation"], dict(m, trace=traces[i]))
